@@ -350,6 +350,31 @@ pub fn drive_digests(out: &mut dyn std::io::Write, family: &str, seed: u64, thor
                 }
             }
         }
+        // sparse blocks and holes: one non-zero byte in an otherwise zero message, and random blocks with one aligned all-zero
+        // word (4 / 8 / 16 bytes) in front of non-zero data - zero words inside a block are what "skip the zero fill" shortcuts key on
+        {
+            let mut idx = 0usize;
+            for wlen in [8usize, 4, 16] {
+                for w in 0..(b / wlen) {
+                    idx += 1;
+                    if !thorough && (wlen != 8 || family != "blake") && (idx + ai + seed as usize) % 3 != 0 {
+                        continue;
+                    }
+                    let mut m = rng.bytes(b + 9);
+                    for x in m[w * wlen..(w + 1) * wlen].iter_mut() {
+                        *x = 0;
+                    }
+                    let n = ns[idx % ns.len()];
+                    digest_event(out, alg, n, &m, "hole", cfg);
+                    if wlen == 8 {
+                        let mut z = vec![0u8; b + (idx % 3) * b];
+                        let at = w * wlen + (idx % wlen);
+                        z[at] = 1 + (idx as u8);
+                        digest_event(out, alg, n, &z, "sparse", cfg);
+                    }
+                }
+            }
+        }
         // "echo" blocks: message blocks assembled from pieces of the chaining value they are compressed into (the IV for the
         // first block, the value read through hook H2 after a prefix otherwise): message and state meet in the compression
         // function, and equal / cancelling words there are unreachable by content that does not know the state
